@@ -87,7 +87,7 @@ func enumerateC07(t *testing.T, seed uint64, emit emitFn) {
 		for _, typed := range []bool{true, false} {
 			e, typed := e, typed
 			variant("enum-F3", func(p *Plan, tx *TxPlan) {
-				tx.Faults = append(tx.Faults, Fault{Kind: "F3", Store: e.Store, Change: e.Type, Id: e.Id, Typed: typed, Flavour: flavour()})
+				tx.Faults = append(tx.Faults, Fault{Kind: "F3", Store: e.Store, Change: e.Type, Id: e.Id, Typed: typed, Flavour: flavour(), Must: !e.Optional})
 			})
 		}
 	}
